@@ -18,6 +18,7 @@ import (
 	distrtypes "github.com/cosmos/cosmos-sdk/x/distribution/types"
 	stakingtypes "github.com/cosmos/cosmos-sdk/x/staking/types"
 
+	"github.com/terra-money/alliance/x/alliance"
 	alliancetypes "github.com/terra-money/alliance/x/alliance/types"
 )
 
@@ -374,6 +375,12 @@ func (OracleC19) End(x *Exec) {
 			if y.Halted != "" {
 				break
 			}
+			if k%2 == 0 {
+				// every second replay is disturbed after each step by work on a branch that is thrown
+				// away (what CheckTx / simulation / a failed transaction do all the time on a node):
+				// everything a transition relies on lives in the store, so nothing may leak
+				disturb(y)
+			}
 		}
 		st, rs := runDigest(y)
 		for _, name := range c19Stores {
@@ -449,4 +456,24 @@ func normalizedRun(x *Exec) []string {
 	}
 	out = append(out, fmt.Sprintf("balances module=%s rewards=%s feecoll=%s bonded=%s notbonded=%s distr=%s users=%v supply=%s", s.Module, s.Rewards, s.FeeColl, s.Bonded, s.NotBonded, s.Distr, s.Users, s.Supply))
 	return out
+}
+
+// disturb executes, on a discarded branch of y's current state, operations that rewrite the
+// module's parameters and assets and run an end-of-block one hour ahead.
+func disturb(y *Exec) {
+	w := y.W
+	c, _ := y.Ctx.CacheContext()
+	c = c.WithEventManager(sdk.NewEventManager())
+	defer func() { _ = recover() }()
+	cur := w.App.AllianceKeeper.GetParams(c)
+	_, _ = w.MsgSrv.UpdateParams(c, &alliancetypes.MsgUpdateParams{Authority: w.Authority, Params: alliancetypes.Params{
+		RewardDelayTime: cur.RewardDelayTime + time.Hour, TakeRateClaimInterval: cur.TakeRateClaimInterval*7 + time.Second, LastTakeRateClaimTime: cur.LastTakeRateClaimTime}})
+	for _, a := range w.App.AllianceKeeper.GetAllAssets(c) {
+		_, _ = w.MsgSrv.UpdateAlliance(c, &alliancetypes.MsgUpdateAlliance{Authority: w.Authority, Denom: a.Denom,
+			RewardWeight: a.RewardWeightRange.Max, RewardWeightRange: a.RewardWeightRange, TakeRate: math.LegacyNewDecWithPrec(3, 1),
+			RewardChangeRate: math.LegacyNewDecWithPrec(9, 1), RewardChangeInterval: time.Minute})
+	}
+	_, _ = w.MsgSrv.Delegate(c, alliancetypes.NewMsgDelegate(w.Probe.String(), w.Vals[1].String(), sdk.NewCoin(AssetDenoms[0], math.NewInt(12345))))
+	_ = w.App.AllianceKeeper.StakingHooks().BeforeValidatorSlashed(c, w.Vals[1], math.LegacyNewDecWithPrec(5, 2))
+	_ = alliance.EndBlocker(c.WithBlockTime(c.BlockTime().Add(time.Hour)), w.App.AllianceKeeper)
 }
